@@ -117,7 +117,8 @@ def load(L, w, data, via, bs, reuse=False):
     if via == 'from_bytes':
         return L.DiffX.from_bytes(data), None
     elif via == 'subclass':
-        return type('DiffX', (L.DiffX,), {}).from_bytes(data), None
+        return domworld.diffx_subclass(
+            L, len(data) % 2 == 0).from_bytes(data), None
 
     h = SimReadHandle(w, data, 'editor')
 
